@@ -296,6 +296,12 @@ func scribble(c *CfgCore) {
 			m[poisonS] = poisonI
 		}
 	}
+	for i := range c.Sh.Tags {
+		c.Sh.Tags[i] = poisonS
+	}
+	if c.Sh.W != nil {
+		c.Sh.W[poisonS] = poisonI
+	}
 	for k := range c.KP {
 		if k.Z != nil {
 			k.Z.ID = poisonI
